@@ -248,8 +248,8 @@ func (s *genState) genProblem(req M) {
 		// ids are arbitrary strings: blanks, non-ASCII letters, other letter case, digits only, ids that look like the
 		// names biases generate, ids of the other kind (a criterion called a1); never empty, never with a comma
 		// (Choquet capacity keys are comma-separated id lists)
-		exoticC := []string{" c1", "c 1", "C1", "ć1", "__concealedCriterion__", "__c1+c2__", "1", "c1_", "a1", "c01", "criterion-with-a-rather-long-identifier-0123456789", "c1\\t", "\"q\""}
-		exoticA := []string{" a1", "a 1", "A1", "ä1", "1", "c1", "a1 ", "a01", "alternative-with-a-rather-long-identifier-0123456789", "a+b", "\"q\""}
+		exoticC := []string{" ", " c1", "c 1", "C1", "ć1", "__concealedCriterion__", "__c1+c2__", "1", "c1_", "a1", "c01", "criterion-with-a-rather-long-identifier-0123456789", "c1\\t", "\"q\""}
+		exoticA := []string{" ", "\t", " a1", "a 1", "A1", "ä1", "1", "c1", "a1 ", "a01", "alternative-with-a-rather-long-identifier-0123456789", "a+b", "\"q\""}
 		if !o.BiasLikeIds {
 			// oracles that look a criterion's declared weight or range up by id cannot tell a declared
 			// __concealedCriterion__ that was omitted from the bias-made criterion that then takes its name
@@ -401,7 +401,40 @@ func (s *genState) genWeights(allowNeg bool) M {
 	if mode == 0 {
 		s.label("equalWeights")
 	}
+	s.squeezeWeights(w)
 	return w
+}
+
+// squeezeWeights rewrites, one time in eight, a weight vector into one with the same order relations but an
+// unusual scale: all weights within 1e-9 of each other (1 + rank x 2^-34), or all weights tiny (x 2^-40).
+// Both maps are exact in binary, so equal weights stay equal and distinct ones distinct.
+func (s *genState) squeezeWeights(w M) {
+	g := s.g
+	if !g.Rare(3) {
+		return
+	}
+	if g.Bool() {
+		var vals []float64
+		for _, k := range sortedKeys(w) {
+			vals = append(vals, num(w[k]))
+		}
+		sort.Float64s(vals)
+		rank := map[float64]int{}
+		for _, x := range vals {
+			if _, ok := rank[x]; !ok {
+				rank[x] = len(rank)
+			}
+		}
+		for _, k := range sortedKeys(w) {
+			w[k] = 1 + float64(rank[num(w[k])])/float64(int64(1)<<34)
+		}
+		s.label("weightsWithin1e-9")
+	} else {
+		for _, k := range sortedKeys(w) {
+			w[k] = num(w[k]) / float64(int64(1)<<40)
+		}
+		s.label("weightsTiny")
+	}
 }
 
 // distinctWeights gives pairwise distinct positive weights.
@@ -412,6 +445,7 @@ func (s *genState) distinctWeights() M {
 	for i, id := range s.critIds {
 		w[id] = float64(p[i]+1) + float64(g.Int(0, 3))/8
 	}
+	s.squeezeWeights(w)
 	return w
 }
 
@@ -619,6 +653,14 @@ func (s *genState) genMethodParams(req M) M {
 			}
 			ec[id] = e
 		}
+		ks := M{}
+		for id, e := range ec {
+			ks[id] = asM(e)["k"]
+		}
+		s.squeezeWeights(ks) // k of an unusual scale: all within 1e-9 of each other, or all tiny
+		for id, e := range ec {
+			asM(e)["k"] = ks[id]
+		}
 		s.superfluous(ec, func() interface{} { return M{"k": 1.0} })
 		mp["electreCriteria"] = ec
 		if g.Chance(1, 2) {
@@ -813,7 +855,7 @@ func (s *genState) genBiasProps(name string, req M) M {
 		n := g.Int(1, 3)
 		aa := make([]interface{}, n)
 		for j := 0; j < n; j++ {
-			aa[j] = M{"alternative": s.altIds[g.Int(0, len(s.altIds)-1)], "coefficient": g.PickF(1, 0.5, 2, g.Unif(0.2, 3))}
+			aa[j] = M{"alternative": s.altIds[g.Int(0, len(s.altIds)-1)], "coefficient": g.PickF(1, 0.5, 2, 1.0/float64(int64(1)<<40), g.Unif(0.2, 3))}
 		}
 		p["anchoringAlternatives"] = aa
 		fn := func() M {
